@@ -5,6 +5,8 @@ use serde_json::Value;
 
 pub mod gen;
 pub mod c01;
+pub mod c02;
+pub mod tree;
 
 #[derive(Clone, Copy, Debug, Default)]
 pub struct Needs {
@@ -44,6 +46,7 @@ pub trait Check {
 pub fn get(id: &str) -> Option<Box<dyn Check>> {
     match id {
         "C01" => Some(Box::new(c01::C01)),
+        "C02" => Some(Box::new(c02::C02)),
         _ => None,
     }
 }
